@@ -113,6 +113,14 @@ def check_fraction_parts(repo, rep):
            "; ".join(bad[:2]) + (": the displayed fraction differs from the stored value (e.g. the unit carried by rounding is lost)" if bad else ""), key="C13.R4@fraction-parts")
 
 
+def _has_assign(repo, rel, name):
+    try:
+        repo.module_assign(rel, name)
+        return True
+    except AnalysisError:
+        return False
+
+
 def _fold_text_table(e, env=None):
     """Value of a constant expression that builds a table of characters: literals, + of sequences, str / chr / ord / list /
     tuple / range over folded values, ``"".join``, and comprehensions over a folded range or sequence (at most 4096 elements)."""
@@ -257,6 +265,22 @@ def run(repo, rep, tier):
     ok = "attrs={x:getattr(formatting,x)forxinALLOWED_FORMATTING_PARAMETERS[format_type]}" in s and "attrs['format_type']=FORMAT_TYPE_MAP[format_type]" in s \
         and "TSKArchives.FormatStructArchive(**attrs)" in s and "returnself._table_formats.lookup_key(table_id,format_archive)" in s
     rep.ob("C13.R1", fa, "format_archive stores exactly the allowed parameters of the type plus the mapped format type", ok, "", key="C13.R1@format_archive")
+    # format_archive is memoised on the text of its arguments (numbers_cache.cache joins str(arg)): the text of a Formatting
+    # must tell apart any two objects that differ in a field the archive is built from, for whatever format type is asked
+    # (a control cell asks for the archive of its display format, not of its own type)
+    memo = [U(d) for d in fa.decorator_list if "cache" in U(d)]
+    if memo:
+        own_text = [m_ for m_ in fcls.body if isinstance(m_, ast.FunctionDef) and m_.name in ("__repr__", "__str__")]
+        bad_text = []
+        for m_ in own_text:
+            src_ = U(m_)
+            complete = any(k_ in src_ for k_ in ("fields(self)", "self.__dict__", "asdict(self)", "vars(self)", "__dataclass_fields__"))
+            named = {f_ for f_ in ffields if f"self.{f_}" in src_ or f"'{f_}'" in src_ or f'"{f_}"' in src_}
+            if not complete and len(named) < len(ffields):
+                bad_text.append((m_, sorted(set(ffields) - named)))
+        rep.ob("C13.R1", bad_text[0][0] if bad_text else fa, f"format_archive memo key ({', '.join(memo)}): the text of a Formatting shows every field", not bad_text,
+               "" if not bad_text else f"Formatting.{bad_text[0][0].name} leaves out {bad_text[0][1][:6]}: two formattings that differ only there share one memo entry, and the "
+               "second cell gets the first one's format (wrong decimals or base on slider and stepper cells)", key="C13.R1@format_archive:memo-key")
     # Formatting defaults relevant to decimals
     post = repo.func("cell.py", "Formatting.__post_init__")
     from ..funsum import Summarizer as _Summ, simplify as _simplify
@@ -474,13 +498,30 @@ def run(repo, rep, tier):
                             ("twos", "two's complement exactly for negative values in bases 2, 8, 16 without minus sign", "C13.R4@base-twos")):
         ps = [x for x in fb_probs if x[0] == cat]
         rep.ob("C13.R4", ps[0][1] if ps else fb, f"{title} ({n_fb} scenarios)", not ps, "" if not ps else ps[0][2] + (f" (and {len(ps) - 1} more scenarios)" if len(ps) > 1 else ""), key=key)
-    tbl = repo.module_assign("cell.py", "INT_TO_BASE_CHAR")
-    try:
-        digits = list(_fold_text_table(tbl))
-    except AnalysisError:
-        digits = None
-    ok = digits == list("0123456789ABCDEFGHIJKLMNOPQRSTUVWXYZ")
-    rep.ob("C13.R4", tbl, "digit table is 0-9 then A-Z (36 digits)", ok, "", key="C13.R4@digit-table")
+    # the table the base renderer takes its digits from: whatever `_format_base` subscripts that folds to a run of characters
+    # (a name bound at module level in cell.py or constants.py, or a literal put in place by the normaliser)
+    fbf = repo.func("cell.py", "_format_base")
+    tables = []
+    for sub_ in [n for n in ast.walk(fbf) if isinstance(n, ast.Subscript) and not isinstance(n.slice, ast.Slice)]:
+        src_ = sub_.value
+        if isinstance(src_, ast.Name):
+            src_ = next((repo.module_assign(m_, src_.id) for m_ in ("cell.py", "constants.py") if _has_assign(repo, m_, src_.id)), None)
+        if src_ is None:
+            continue
+        try:
+            val_ = _fold_text_table(src_)
+        except AnalysisError:
+            continue
+        if isinstance(val_, (list, str)) and len(val_) >= 10 and all(isinstance(c_, str) and len(c_) == 1 for c_ in val_):
+            tables.append((src_, list(val_)))
+    if not tables:
+        raise AnalysisError("_format_base: the table of digit characters was not found")
+    tbl = tables[0][0]
+    bad_t = [t_ for _n, t_ in tables if t_ != list("0123456789ABCDEFGHIJKLMNOPQRSTUVWXYZ")]
+    ok = not bad_t
+    rep.ob("C13.R4", tbl, "digit table is 0-9 then A-Z (36 digits)", ok,
+           "" if ok else f"the digits are `{''.join(bad_t[0])}`: " + "; ".join(f"digit value {i_} prints as {c_!r}" for i_, c_ in enumerate(bad_t[0]) if i_ >= 36 or c_ != "0123456789ABCDEFGHIJKLMNOPQRSTUVWXYZ"[i_])[:160],
+           key="C13.R4@digit-table")
     ff, n_ff, ff_probs = numfmt.check_format_fraction(repo)
     hi = [x for x in ff_probs if "digit count" in x[1]]
     lo = [x for x in ff_probs if "digit count" not in x[1]]
@@ -494,6 +535,8 @@ def run(repo, rep, tier):
 
 
 VARIANTS = [
+    M("digit-table-two-letters-swapped", "cell.py", 'INT_TO_BASE_CHAR = [str(x) for x in range(10)] + [chr(x) for x in range(ord("A"), ord("Z") + 1)]', 'INT_TO_BASE_CHAR = list("0123456789ABCDEFGHIJKLMNOPQRSTVUWXYZ")', "C13.R4"),
+    M("formatting-repr-leaves-fields-out", "cell.py", "@dataclass\nclass CustomFormatting:", "    def __repr__(self) -> str:\n        return f\"Formatting(type={self.type.name}, decimal_places={self.decimal_places})\"\n\n\n@dataclass\nclass CustomFormatting:", "C13.R1"),
     T("defaults-conditional-expression", "cell.py", '            if self.type == FormattingType.CURRENCY:\n                self.decimal_places = 2\n            else:\n                self.decimal_places = DECIMAL_PLACES_AUTO\n', "            self.decimal_places = 2 if self.type == FormattingType.CURRENCY else DECIMAL_PLACES_AUTO\n"),
     M("defaults-conditional-expression-swapped", "cell.py", '            if self.type == FormattingType.CURRENCY:\n                self.decimal_places = 2\n            else:\n                self.decimal_places = DECIMAL_PLACES_AUTO\n', "            self.decimal_places = DECIMAL_PLACES_AUTO if self.type == FormattingType.CURRENCY else 2\n", "C13.R1"),
     T("digit-table-as-text", "cell.py", 'INT_TO_BASE_CHAR = [str(x) for x in range(10)] + [chr(x) for x in range(ord("A"), ord("Z") + 1)]', 'INT_TO_BASE_CHAR = list("0123456789ABCDEFGHIJKLMNOPQRSTUVWXYZ")'),
